@@ -4,6 +4,8 @@ import Swat4.Lemmas.GS1Collect
 import Swat4.Lemmas.GS1Parse
 import Swat4.Lemmas.GS1Expand
 import Swat4.Lemmas.GS1Decode
+import Swat4.Lemmas.GS1Players
+import Swat4.Lemmas.GS1Atoi
 import Swat4.Spec.GS1Spec
 /-!
 # C08 — Status responses decode faithfully in every dialect, split and order
@@ -20,6 +22,25 @@ open Swat4 Swat4.GS1 Swat4.GS1Spec
 /-- the answers `probePort` forwards: they decoded and their hostport equals the game port -/
 def acceptedOf (gamePort : Int) (arrivals : List PortAnswer) : List PortAnswer :=
   arrivals.filter (accepted gamePort)
+
+/-- **C08 (which answers count).** `probePort`'s gate, stated without the model's own helpers: an
+answer is accepted exactly when `strconv.Atoi` (the reporter model's definition, `Heartbeat.atoi`)
+of its `hostport` field (core `List.lookup`; a missing key reads as the empty string, as a Go map
+does) succeeds and equals the game port — so a missing, empty, non-numeric or out-of-range hostport
+is rejected, a signed or zero-padded spelling of the game port is accepted. -/
+theorem accepted_iff (gamePort : Int) (a : PortAnswer) :
+    accepted gamePort a = true ↔
+      Heartbeat.atoi ((a.resp.fields.lookup kHostport).getD []) = some gamePort := by
+  simp only [accepted, hostportOf, atoi_eq_heartbeat, lookupKV_eq_lookup, beq_iff_eq]
+
+/-- the accepted answers are exactly the arrivals whose hostport parses to the game port, in arrival order -/
+theorem acceptedOf_eq (gamePort : Int) (arrivals : List PortAnswer) :
+    acceptedOf gamePort arrivals =
+      arrivals.filter fun a => decide (Heartbeat.atoi ((a.resp.fields.lookup kHostport).getD []) = some gamePort) := by
+  unfold acceptedOf
+  congr 1
+  funext a
+  rw [Bool.eq_iff_iff, accepted_iff, decide_eq_true_iff]
 
 theorem chooseAccepted_cons (x : Ver × Int) (t : List (Ver × Int)) :
     chooseAccepted (x :: t) = some ((x :: t).foldl compareResponses (.unknown, 0)) := rfl
@@ -302,84 +323,147 @@ theorem parse_concat (chunks : List (List Bytes)) (h : ∀ ch ∈ chunks, ∀ g 
 theorem framingFields_ok (d : Dialect) : ∀ kv ∈ framingFields d, usc ∉ kv.1 ∧ bsl ∉ kv.1 ∧ bsl ∉ kv.2 := by
   cases d <;> decide
 
-/-- **C08 (expand ∘ encode).** The reassembled payload of a well-formed status — its rendered field
-sequence followed by the framing fields the dialect leaves in the payload — expands to exactly
-`toResponse`: the server fields (latin-1 → UTF-8, later duplicates win), the players grouped by
-index in ascending order with their keys, the objectives in order, and the dialect tag. -/
-theorem expand_concat (d : Dialect) (s : Status) (wf : WfStatus s) (hn : s.players.length ≤ 9223372036854775808) :
-    expandPayload (body (flat s ++ (framingFields d).flatMap fun kv => [kv.1, kv.2])) d.ver = .ok (toResponse d s) :=
-  expandPayload_flat s wf hn (framingFields d) (framingFields_ok d) d.ver
+/-- **C08 (expand ∘ encode).** The reassembled payload of a well-formed status sent in ANY wire order
+`w` (pairs of different players, server fields and objectives interleaved at will, player indexes
+with gaps and in any order) — its rendered pair sequence followed by the framing fields the dialect
+leaves in the payload — expands to exactly `toResponse`: the server fields (latin-1 → UTF-8, later
+duplicates win), the players grouped by index in ascending order with their keys, the objectives in
+order, and the dialect tag. -/
+theorem expand_concat (d : Dialect) (s : GS1Spec.Status) (wf : WfStatus s) (w : List Item) (hw : WireOf s w) :
+    expandPayload (body (flatItems w ++ (framingFields d).flatMap fun kv => [kv.1, kv.2])) d.ver = .ok (toResponse d s) :=
+  expandPayload_wire s wf w hw (framingFields d) (framingFields_ok d) d.ver
 
 /-! ## the whole path: encode, deliver in any order with duplicates, query -/
 
 /-- **C08 (inspect ∘ encode).** In every fragmenting dialect (GS1 mod, AdminMod with `queryid` on the
-last / on every / on no fragment), fragment `i` (zero-based) of `n` of a well-formed status, cut
-anywhere between two fields (also between a name and its value), is recognised with number `i+1`,
-as final iff it is the last one, with the dialect's tag, and carrying exactly its part of the
-payload (`fragData`: the chunk's fields, plus the framing fields the dialect leaves in the last one). -/
-theorem inspect_encode (d : Dialect) (hd : d.fragmenting = true) (s : Status) (wf : WfStatus s) (cuts : List Nat)
-    (ch : List Bytes) (hch : ch ∈ chunks (flat s) cuts) (n i : Nat) (hi : i + 1 < 9223372036854775808) :
+last / on every / on no fragment), fragment `i` (zero-based) of `n` of a well-formed status in any
+wire order, cut anywhere between two fields (also between a name and its value), is recognised with
+number `i+1`, as final iff it is the last one, with the dialect's tag, and carrying exactly its part of
+the payload (`fragData`: the chunk's fields, plus the framing fields the dialect leaves in the last one). -/
+theorem inspect_encode (d : Dialect) (hd : d.fragmenting = true) (s : GS1Spec.Status) (wf : WfStatus s)
+    (w : List Item) (hw : WireOf s w) (cuts : List Nat)
+    (ch : List Bytes) (hch : ch ∈ chunks (flatItems w) cuts) (n i : Nat) (hi : i + 1 < 9223372036854775808) :
     inspectFragment (fragment d n i ch) = .ok ⟨decide (i + 1 = n), ((i + 1 : Nat) : Int), d.ver, fragData d n i ch⟩ :=
-  inspect_fragment d hd n i ch (ChunkOK_of_mem_chunks s wf cuts ch hch) hi
+  inspect_fragment d hd n i ch
+    (ChunkOK_of_mem_chunks _ (FlatOK_flatItems w (wireOf_wfItem hw wf)) cuts ch hch) hi
 
 /-- "every datagram of the encoding has arrived" -/
 def Covers (E dl : List Bytes) : Prop := ∀ x ∈ E, x ∈ dl
 
-/-- **C08 (reassembly of any delivery).** For a well-formed status encoded in any dialect and cut
-anywhere, and any delivery of its datagrams — any order, any duplication — `collectPayload`
-completes exactly when every datagram has arrived (never before the final fragment and all
-lower-numbered ones are there), and then hands over the rendered field sequence with the
+/-- **C08 (reassembly of any delivery).** For a well-formed status in any wire order, encoded in any
+dialect and cut anywhere, and any delivery of its datagrams — any order, any duplication —
+`collectPayload` completes exactly when every datagram has arrived (never before the final fragment
+and all lower-numbered ones are there), and then hands over the rendered pair sequence with the
 dialect's tag. -/
-theorem C08_collect (d : Dialect) (s : Status) (wf : WfStatus s) (cuts : List Nat)
-    (hc : cuts.length + 1 < 9223372036854775808) (dl : List Bytes) (hsub : ∀ x ∈ dl, x ∈ encodeStatus d s cuts) :
-    (Covers (encodeStatus d s cuts) dl → ∃ cap, collectPayload dl =
-        .ok ⟨body (flat s ++ (framingFields d).flatMap fun kv => [kv.1, kv.2]), cap, d.ver⟩) ∧
-    (¬ Covers (encodeStatus d s cuts) dl → collectPayload dl = .err .incomplete) := by
-  have := collect_of_numbered (encode_insp d s wf cuts hc) (expected_numbered d s cuts) dl hsub
+theorem C08_collect (d : Dialect) (s : GS1Spec.Status) (wf : WfStatus s) (w : List Item) (hw : WireOf s w) (cuts : List Nat)
+    (hc : cuts.length + 1 < 9223372036854775808) (dl : List Bytes) (hsub : ∀ x ∈ dl, x ∈ encodeWire d w cuts) :
+    (Covers (encodeWire d w cuts) dl → ∃ cap, collectPayload dl =
+        .ok ⟨body (flatItems w ++ (framingFields d).flatMap fun kv => [kv.1, kv.2]), cap, d.ver⟩) ∧
+    (¬ Covers (encodeWire d w cuts) dl → collectPayload dl = .err .incomplete) := by
+  have ok := FlatOK_flatItems w (wireOf_wfItem hw wf)
+  have := collect_of_numbered (encode_insp d (flatItems w) ok cuts hc) (expected_numbered d (flatItems w) cuts) dl hsub
   rw [expected_data] at this
   exact this
 
-/-- **C08.** For every well-formed status, in the vanilla, AdminMod or GS1-mod dialect (and their
-variants), cut into fragments at any field boundaries, delivered in any order with duplicates:
+/-- **C08.** For every well-formed status, sent with its pairs in ANY wire order `w` (`WireOf s w`:
+player indexes with gaps, players in any order of index, the pairs of different players, the server
+fields and the objectives interleaved at will), in the vanilla, AdminMod or GS1-mod dialect (and
+their variants), cut into fragments at any field boundaries, delivered in any order with duplicates:
 the query yields exactly `toResponse` — the encoded server fields, the players grouped by index in
 ascending order with their keys, the objectives in order, latin-1 text as UTF-8, the dialect tag —
 as soon as, and not before, every fragment has arrived; a delivery that lacks a fragment ends in
-the timeout.  (Datagrams are at most 2048 bytes, the read buffer; fragment and player counts are
-below 2^63.) -/
-theorem C08_decode (d : Dialect) (s : Status) (wf : WfStatus s) (cuts : List Nat)
-    (hc : cuts.length + 1 < 9223372036854775808) (hn : s.players.length ≤ 9223372036854775808)
+the timeout.  (Datagrams are at most 2048 bytes, the read buffer; the fragment count and the player
+indexes are below 2^63.) -/
+theorem C08_decode (d : Dialect) (s : GS1Spec.Status) (wf : WfStatus s) (w : List Item) (hw : WireOf s w) (cuts : List Nat)
+    (hc : cuts.length + 1 < 9223372036854775808)
+    (hsz : ∀ x ∈ encodeWire d w cuts, x.length ≤ bufferSize)
+    (dl : List Bytes) (hsub : ∀ x ∈ dl, x ∈ encodeWire d w cuts) :
+    (Covers (encodeWire d w cuts) dl → runQuery dl = .response (toResponse d s)) ∧
+    (¬ Covers (encodeWire d w cuts) dl → runQuery dl = .timeout) := by
+  have ok := FlatOK_flatItems w (wireOf_wfItem hw wf)
+  simp only [encodeWire] at hsz hsub ⊢
+  have hexp : expandPayload ((expected d (flatItems w) cuts).map (·.data)).flatten d.ver = .ok (toResponse d s) := by
+    rw [expected_data]; exact expand_concat d s wf w hw
+  have hne := encode_ne_nil d (flatItems w) ok cuts hc
+  have hnc : ¬ (∀ x ∈ encodeFlat d (flatItems w) cuts, x ∈ ([] : List Bytes)) := by
+    intro h
+    cases he : encodeFlat d (flatItems w) cuts with
+    | nil => exact hne he
+    | cons x t => have := h x (by rw [he]; simp); cases this
+  have := runQuery_of_numbered (encode_insp d (flatItems w) ok cuts hc) (expected_numbered d (flatItems w) cuts)
+    (toResponse d s) hexp hsz [] dl (by simpa using hsub) hnc
+  simpa [runQuery, Covers] using this
+
+/-- **C08, in the servers' own order** (server fields, the players one after another as listed, the
+objectives): the instance `w = items s` of `C08_decode`. -/
+theorem C08_decode_own_order (d : Dialect) (s : GS1Spec.Status) (wf : WfStatus s) (cuts : List Nat)
+    (hc : cuts.length + 1 < 9223372036854775808)
     (hsz : ∀ x ∈ encodeStatus d s cuts, x.length ≤ bufferSize)
     (dl : List Bytes) (hsub : ∀ x ∈ dl, x ∈ encodeStatus d s cuts) :
     (Covers (encodeStatus d s cuts) dl → runQuery dl = .response (toResponse d s)) ∧
-    (¬ Covers (encodeStatus d s cuts) dl → runQuery dl = .timeout) := by
-  have hexp : expandPayload ((expected d s cuts).map (·.data)).flatten d.ver = .ok (toResponse d s) := by
-    rw [expected_data]; exact expand_concat d s wf hn
-  have hne := encode_ne_nil d s wf cuts hc
-  have hnc : ¬ (∀ x ∈ encodeStatus d s cuts, x ∈ ([] : List Bytes)) := by
-    intro h
-    cases he : encodeStatus d s cuts with
-    | nil => exact hne he
-    | cons x t => have := h x (by rw [he]; simp); cases this
-  have := runQuery_of_numbered (encode_insp d s wf cuts hc) (expected_numbered d s cuts) (toResponse d s) hexp hsz
-    [] dl (by simpa using hsub) hnc
-  simpa [runQuery, Covers] using this
+    (¬ Covers (encodeStatus d s cuts) dl → runQuery dl = .timeout) :=
+  C08_decode d s wf (items s) (wireOf_items s wf.player_ids) cuts hc hsz dl hsub
 
 /-- **C08 (no early completion), stated on one step of `getResponse`:** while a fragment is still
 missing after the new datagram, the query keeps reading. -/
-theorem C08_keeps_reading (d : Dialect) (s : Status) (wf : WfStatus s) (cuts : List Nat)
+theorem C08_keeps_reading (d : Dialect) (s : GS1Spec.Status) (wf : WfStatus s) (w : List Item) (hw : WireOf s w) (cuts : List Nat)
     (hc : cuts.length + 1 < 9223372036854775808)
-    (hsz : ∀ x ∈ encodeStatus d s cuts, x.length ≤ bufferSize)
-    (frs : List Bytes) (x : Bytes) (hsub : ∀ y ∈ frs ++ [x], y ∈ encodeStatus d s cuts)
-    (hmiss : ¬ Covers (encodeStatus d s cuts) (frs ++ [x])) : feed frs x = .incomplete := by
-  have hx : x ∈ encodeStatus d s cuts := hsub x (by simp)
+    (hsz : ∀ x ∈ encodeWire d w cuts, x.length ≤ bufferSize)
+    (frs : List Bytes) (x : Bytes) (hsub : ∀ y ∈ frs ++ [x], y ∈ encodeWire d w cuts)
+    (hmiss : ¬ Covers (encodeWire d w cuts) (frs ++ [x])) : feed frs x = .incomplete := by
+  have ok := FlatOK_flatItems w (wireOf_wfItem hw wf)
+  have hx : x ∈ encodeWire d w cuts := hsub x (by simp)
   have htake : x.take bufferSize = x := List.take_of_length_le (hsz x hx)
   have hxne : ¬ x.length = 0 := by
     intro h0
-    obtain ⟨F, _, hi⟩ := insp_of_mem (encode_insp d s wf cuts hc) hx
+    obtain ⟨F, _, hi⟩ := insp_of_mem (encode_insp d (flatItems w) ok cuts hc) hx
     rw [List.length_eq_zero_iff.mp h0, insp_nil] at hi; cases hi
-  have := (C08_collect d s wf cuts hc (frs ++ [x]) hsub).2 hmiss
+  have := (C08_collect d s wf w hw cuts hc (frs ++ [x]) hsub).2 hmiss
   unfold feed
   simp only [htake, hxne, if_false, this]
+
+/-! ## players: grouped by index, ascending, whatever the wire order -/
+
+/-- **C08 (players grouped by index in ascending order).** Whatever the wire order `w` of the status
+— player indexes with gaps (0, 2, 7), listed or sent in any order, the pairs of different players
+interleaved — and whatever the dialect, the fragmentation and the delivery: once every fragment has
+arrived the query answers, and the players of the answer are the maps of `ps`, where `ps` is THE
+arrangement of the status's players that is strictly ascending by index (`ps` is a permutation of
+`s.players` and sorted; there is exactly one such list, `sortById s.players`).  Each player's map holds
+exactly that player's pairs (`mkMap`: latin-1 → UTF-8, a repeated key keeps its last value); gaps in
+the indexes are closed up (the answer is a list, the index itself is not kept). -/
+theorem C08_players_sorted (d : Dialect) (s : GS1Spec.Status) (wf : WfStatus s) (w : List Item) (hw : WireOf s w) (cuts : List Nat)
+    (hc : cuts.length + 1 < 9223372036854775808)
+    (hsz : ∀ x ∈ encodeWire d w cuts, x.length ≤ bufferSize)
+    (dl : List Bytes) (hsub : ∀ x ∈ dl, x ∈ encodeWire d w cuts) (hcov : Covers (encodeWire d w cuts) dl) :
+    ∃ r ps, runQuery dl = .response r ∧ r.players = ps.map (fun p => mkMap p.2) ∧
+      ps.Perm s.players ∧ ps.Pairwise (fun a b => a.1 < b.1) ∧
+      ∀ ps' : List (Nat × List (Bytes × Bytes)), ps'.Perm s.players → ps'.Pairwise (fun a b => a.1 < b.1) → ps' = ps :=
+  ⟨toResponse d s, sortById s.players, (C08_decode d s wf w hw cuts hc hsz dl hsub).1 hcov, rfl,
+    sortById_perm _, sortById_sorted _ wf.player_ids, fun ps' hp hs => (sortById_unique _ ps' hp hs).symm⟩
+
+/-- **C08 (any permutation of the player pairs).** Two well-formed statuses that give every player
+index the same pairs up to order — the players listed in another order, and/or a player's pairs in
+another order (its keys being pairwise different; with a repeated key the LAST value wins, so there
+the order matters) — decode to the same players.  Together with `C08_decode` (any interleaving of
+the pairs on the wire): every permutation of the `key_N\value` pairs of a status yields the same
+players, ascending by index. -/
+theorem C08_players_perm (d d' : Dialect) (s s' : GS1Spec.Status) (wf : WfStatus s) (wf' : WfStatus s')
+    (hk : ∀ p ∈ s.players, (p.2.map (·.1)).Nodup)
+    (h : ∀ id, (pairsFor s.players id).Perm (pairsFor s'.players id)) :
+    (toResponse d s).players = (toResponse d' s').players := by
+  have := playerTable_perm s.players s'.players wf.player_ids wf'.player_ids
+    (fun p hp => (wf.player_keys p hp).1) (fun p hp => (wf'.player_keys p hp).1) hk h
+  have := congrArg (List.map (·.2)) this
+  simpa [playerTable, toResponse, List.map_map, Function.comp_def] using this
+
+/-- listing the players in another order changes nothing -/
+theorem C08_players_listing (d : Dialect) (s s' : GS1Spec.Status) (wf : WfStatus s)
+    (hf : s'.fields = s.fields) (ho : s'.objectives = s.objectives) (hp : s'.players.Perm s.players) :
+    toResponse d s' = toResponse d s := by
+  have : sortById s'.players = sortById s.players :=
+    sortById_unique _ _ ((sortById_perm _).trans hp.symm) (sortById_sorted _ wf.player_ids)
+  simp only [toResponse, hf, ho, this]
 
 end Swat4.C08
 
@@ -395,9 +479,80 @@ example : Swat4.C08.ConsistentDups
   unfold Swat4.C08.ConsistentDups Swat4.GS1.ConsistentFrags
   decide
 
-/-- non-vacuity of `C08_decode`: a well-formed status with a latin-1 host name, one player and one objective -/
-example : Swat4.GS1Spec.WfStatus
-    ⟨[([0x68, 0x6f, 0x73, 0x74, 0x6e, 0x61, 0x6d, 0x65], [0x53, 0xe9, 0x72, 0x76]), ([0x68, 0x6f, 0x73, 0x74, 0x70, 0x6f, 0x72, 0x74], [0x31, 0x30, 0x34, 0x38, 0x30])],
-     [[([0x70, 0x6c, 0x61, 0x79, 0x65, 0x72], [0x4a, 0x6f]), ([0x73, 0x63, 0x6f, 0x72, 0x65], [0x33])]],
-     [([0x41, 0x5f, 0x42], [0x31])]⟩ :=
-  ⟨by decide, by decide, by decide, by decide, by decide, by decide, by decide⟩
+/-- non-vacuity of `C08_decode`: a well-formed status with a latin-1 host name, three players with the
+indexes 7, 0, 2 (gaps, not ascending) and one objective -/
+def Swat4.C08.exStatus : Swat4.GS1Spec.Status :=
+  ⟨[([0x68, 0x6f, 0x73, 0x74, 0x6e, 0x61, 0x6d, 0x65], [0x53, 0xe9, 0x72, 0x76]), ([0x68, 0x6f, 0x73, 0x74, 0x70, 0x6f, 0x72, 0x74], [0x31, 0x30, 0x34, 0x38, 0x30])],
+   [(7, [([0x70, 0x6c, 0x61, 0x79, 0x65, 0x72], [0x4a, 0x6f]), ([0x73, 0x63, 0x6f, 0x72, 0x65], [0x33])]),
+    (0, [([0x70, 0x6c, 0x61, 0x79, 0x65, 0x72], [0x41])]),
+    (2, [([0x70, 0x6c, 0x61, 0x79, 0x65, 0x72], [0x42]), ([0x73, 0x63, 0x6f, 0x72, 0x65], [0x39])])],
+   [([0x41, 0x5f, 0x42], [0x31])]⟩
+
+example : Swat4.GS1Spec.WfStatus Swat4.C08.exStatus :=
+  ⟨by decide, by decide, by decide, by decide, by decide, by decide, by decide, by decide, by decide⟩
+
+/-- a wire order of `exStatus` with everything interleaved: `score_2`, the objective, `player_7`, `hostport`,
+`player_2`, `player_0`, `hostname`… wait for `score_7` at the very end -/
+def Swat4.C08.exWire : List Swat4.GS1Spec.Item :=
+  [.player 2 [0x70, 0x6c, 0x61, 0x79, 0x65, 0x72] [0x42],
+   .objective [0x41, 0x5f, 0x42] [0x31],
+   .player 7 [0x70, 0x6c, 0x61, 0x79, 0x65, 0x72] [0x4a, 0x6f],
+   .field [0x68, 0x6f, 0x73, 0x74, 0x6e, 0x61, 0x6d, 0x65] [0x53, 0xe9, 0x72, 0x76],
+   .player 2 [0x73, 0x63, 0x6f, 0x72, 0x65] [0x39],
+   .player 0 [0x70, 0x6c, 0x61, 0x79, 0x65, 0x72] [0x41],
+   .field [0x68, 0x6f, 0x73, 0x74, 0x70, 0x6f, 0x72, 0x74] [0x31, 0x30, 0x34, 0x38, 0x30],
+   .player 7 [0x73, 0x63, 0x6f, 0x72, 0x65] [0x33]]
+
+/-- non-vacuity of `WireOf` (hypothesis of `C08_decode`, `C08_players_sorted`): an interleaved, out-of-order wire -/
+example : Swat4.GS1Spec.WireOf Swat4.C08.exStatus Swat4.C08.exWire :=
+  (Swat4.GS1.wireOfB_iff _ _).mp (by decide)
+
+/-- … and the players of its faithful decoding are those with the indexes 0, 2, 7, in this order -/
+example : (Swat4.GS1Spec.toResponse .gs1 Swat4.C08.exStatus).players =
+    [[([0x70, 0x6c, 0x61, 0x79, 0x65, 0x72], [0x41])],
+     [([0x70, 0x6c, 0x61, 0x79, 0x65, 0x72], [0x42]), ([0x73, 0x63, 0x6f, 0x72, 0x65], [0x39])],
+     [([0x70, 0x6c, 0x61, 0x79, 0x65, 0x72], [0x4a, 0x6f]), ([0x73, 0x63, 0x6f, 0x72, 0x65], [0x33])]] := by decide
+
+/-- the model run on that wire, GS1 dialect, two fragments delivered last-first, gives exactly that -/
+example : Swat4.GS1.runQuery ((Swat4.GS1Spec.encodeWire .gs1 Swat4.C08.exWire [6]).reverse) =
+    .response (Swat4.GS1Spec.toResponse .gs1 Swat4.C08.exStatus) := by decide
+
+/-- non-vacuity of `C08_players_perm`: the same players listed in ascending order, `score`/`player` of 7 swapped -/
+example : ∀ id, (Swat4.GS1Spec.pairsFor Swat4.C08.exStatus.players id).Perm (Swat4.GS1Spec.pairsFor
+    [(0, [([0x70, 0x6c, 0x61, 0x79, 0x65, 0x72], [0x41])]),
+     (2, [([0x70, 0x6c, 0x61, 0x79, 0x65, 0x72], [0x42]), ([0x73, 0x63, 0x6f, 0x72, 0x65], [0x39])]),
+     (7, [([0x73, 0x63, 0x6f, 0x72, 0x65], [0x33]), ([0x70, 0x6c, 0x61, 0x79, 0x65, 0x72], [0x4a, 0x6f])])] id) := by
+  intro id
+  simp only [Swat4.C08.exStatus, Swat4.GS1Spec.pairsFor]
+  by_cases h7 : 7 = id
+  · subst h7; simp only [if_true]; exact List.Perm.swap _ _ _
+  · by_cases h0 : 0 = id
+    · subst h0; simp
+    · by_cases h2 : 2 = id
+      · subst h2; simp
+      · simp [h7, h0, h2]
+
+/-! ### quirks of the decoder outside the well-formed streams (mirrored by the model; documented, not required) -/
+
+/-- a non-numeric index (`a_b`) makes the whole response malformed -/
+example : Swat4.GS1.expandPayload [0x5c, 0x61, 0x5f, 0x62, 0x5c, 0x31] .gs1 = .err .malformed := by rfl
+
+/-- an index beyond int64 (`a_9223372036854775808`: `strconv.Atoi` range error) makes the whole response malformed -/
+example : Swat4.GS1.expandPayload ([0x5c, 0x61, 0x5f] ++ Swat4.GS1Spec.decimal 9223372036854775808 ++ [0x5c, 0x31]) .gs1 =
+    .err .malformed := by rfl
+
+/-- the index is everything after the FIRST underscore: `a_b_1` is key `a` of index `b_1` → malformed -/
+example : Swat4.GS1.expandPayload [0x5c, 0x61, 0x5f, 0x62, 0x5f, 0x31, 0x5c, 0x31] .gs1 = .err .malformed := by rfl
+
+/-- `a_` (nothing after the underscore) is dropped silently -/
+example : Swat4.GS1.expandPayload [0x5c, 0x61, 0x5f, 0x5c, 0x31] .gs1 = .ok ⟨[], [], [], .gs1⟩ := by rfl
+
+/-- `strconv.Atoi` spellings of one index (`a_1`, `b_+1`, `c_01`) name the same player; a negative index (`d_-1`) sorts first -/
+example : Swat4.GS1.expandPayload
+    [0x5c, 0x61, 0x5f, 0x31, 0x5c, 0x78, 0x5c, 0x62, 0x5f, 0x2b, 0x31, 0x5c, 0x79, 0x5c, 0x63, 0x5f, 0x30, 0x31, 0x5c, 0x7a,
+     0x5c, 0x64, 0x5f, 0x2d, 0x31, 0x5c, 0x77] .gs1 =
+    .ok ⟨[], [[([0x64], [0x77])], [([0x61], [0x78]), ([0x62], [0x79]), ([0x63], [0x7a])]], [], .gs1⟩ := by rfl
+
+/-- a repeated key of one player: the later value wins -/
+example : Swat4.GS1.expandPayload [0x5c, 0x61, 0x5f, 0x33, 0x5c, 0x78, 0x5c, 0x61, 0x5f, 0x33, 0x5c, 0x79] .gs1 =
+    .ok ⟨[], [[([0x61], [0x79])]], [], .gs1⟩ := by rfl
